@@ -422,3 +422,30 @@ Proof.
   repeat (destruct I as [I|I]; [inversion I; subst; clear I|]); try destruct I;
     split; intros; discriminate.
 Qed.
+
+(* a chain inside K (hypothesis of C11_within_reported) *)
+Example example_within :
+  conn_within [7%positive] (history_of example_ops) 1%positive 3%positive.
+Proof.
+  apply (c11_singlepath_partial example_ops 1 3 [7])%positive.
+  - exact example_forest.
+  - apply example_declared.
+  - apply example_declared.
+  - apply example_answers.
+Qed.
+
+(* late keys: registering fields 7 and 8 early *)
+Example example_late_key :
+  let ops1 := [ODecl 1]%positive in
+  let ks := [7; 8]%positive in
+  let ops2 := [ODerive 1 2 [7]]%positive in
+  declared (history_of (ops1 ++ ops2)) 1%positive /\ declared (history_of (ops1 ++ ops2)) 2%positive /\
+  snd (check_eqv_proc (run (ops1 ++ map ONewKey ks ++ ops2)) 1 2 [])%positive = RBool false /\
+  snd (check_eqv_proc (run (ops1 ++ map ONewKey ks ++ ops2)) 1 2 [7])%positive = RBool true.
+Proof. vm_compute. repeat split; auto. Qed.
+
+(* same recorded history, different call sequences (a query, a failed call, an early key) *)
+Example example_same_history :
+  history_of example_ops =
+  history_of [ODecl 1; ONewKey 7; ODerive 1 2 [7]; OAssert 9 2 []; ODerive 2 3 []; ORepr 3; ODecl 4]%positive.
+Proof. reflexivity. Qed.
